@@ -854,4 +854,165 @@ example : (axisBox (fun c => [(⟨"position_x", "gt", 1 / 4⟩ : Loader.Pred)].a
   refine (C04_axis_sound [⟨"position_x", "gt", 1 / 4⟩] (by simp) 1 (by norm_num) 2 (3 / 8) (by norm_num) (by norm_num)
     (by simp [Loader.Pred.eval]; norm_num) ⟨1, by decide, by simp [Loader.Pred.eval]; norm_num⟩ (fun _ => ⟨3, by norm_num⟩)).1
 
+/-! ### from the cell to the cpu list: the whole chain -/
+
+/-- the `B`-bit integer coordinate of the centre of the oct that holds the level-`l` cell `cx` -/
+def octCoord (cx l B : Nat) : Nat := (2 * (cx / 2) + 1) * 2 ^ (B - l)
+
+/-- at any resolution coarser than the oct, the oct centre and the cell lie in the same cube -/
+theorem octCoord_cube (cx l B b : Nat) (hb : b + 1 ≤ l) (hl : l ≤ B) :
+    octCoord cx l B / 2 ^ (B - b) = cx / 2 ^ (l - b) := by
+  unfold octCoord
+  have e1 : 2 ^ (B - b) = 2 ^ (B - l) * 2 ^ (l - b) := by rw [← Nat.pow_add]; congr 1; omega
+  rw [e1, Nat.mul_comm (2 * (cx / 2) + 1), Nat.mul_div_mul_left _ _ (Nat.pow_pos (by decide))]
+  obtain ⟨k, hk⟩ : ∃ k, l - b = k + 1 := ⟨l - b - 1, by omega⟩
+  rw [hk, Nat.pow_succ, Nat.mul_comm (2 ^ k) 2, ← Nat.div_div_eq_div_mul, ← Nat.div_div_eq_div_mul]
+  congr 1
+  omega
+
+theorem bitLength_le_minCube (bb : BBox) (lmax minCube : Nat) (h : 0 < minCube) :
+    bitLengthOf bb lmax minCube ≤ minCube - 1 := by
+  unfold bitLengthOf
+  simp only
+  split
+  · omega
+  · rename_i hc
+    simp only [Bool.and_eq_true, decide_eq_true_eq, not_and, not_lt] at hc
+    have := hc h
+    omega
+
+/-- **C04 (every leaf cell of the box is served)**, 3-D Hilbert ordering. A cell of level `l` (integer coordinates
+    `cx, cy, cz` at `l` bits) is stored with its oct, and the oct belongs to the cpu whose key range holds the key of the
+    oct centre at `levelmax+1` bits. If the cell's *own* centre lies in the bounding box handed to `_get_cpu_list` and the
+    search cubes are coarser than the oct (`bitLength + 1 ≤ l`: guaranteed by the rule that the cubes are never finer than
+    `levelmin`, `bitLength_le_minCube`), that cpu is in the returned list. -/
+theorem C04_cell_sound (t : HTable) (hd : ∀ s d, t.digit s d < 8) (bb : BBox) (lmax levelmax ncpu : Nat)
+    (bk : List Nat) (minCube : Nat)
+    (hm : ∀ i j, i ≤ j → j ≤ ncpu → bk.getD i 0 ≤ bk.getD j 0) (h0 : bk.getD 0 0 = 0)
+    (htop : 8 ^ (levelmax + 1) ≤ bk.getD ncpu 0)
+    (hx0 : 0 ≤ bb.xmin) (hy0 : 0 ≤ bb.ymin) (hz0 : 0 ≤ bb.zmin)
+    (l cx cy cz o : Nat) (hl : l ≤ levelmax + 1) (hbl : bitLengthOf bb lmax minCube + 1 ≤ l) (ho : o < ncpu)
+    (hlo : bk.getD o 0 ≤ key t (octCoord cx l (levelmax + 1)) (octCoord cy l (levelmax + 1)) (octCoord cz l (levelmax + 1)) (levelmax + 1))
+    (hhi : key t (octCoord cx l (levelmax + 1)) (octCoord cy l (levelmax + 1)) (octCoord cz l (levelmax + 1)) (levelmax + 1) < bk.getD (o + 1) 0)
+    (hx1 : bb.xmin ≤ ((cx : Rat) + 1 / 2) / 2 ^ l) (hx2 : ((cx : Rat) + 1 / 2) / 2 ^ l ≤ bb.xmax)
+    (hy1 : bb.ymin ≤ ((cy : Rat) + 1 / 2) / 2 ^ l) (hy2 : ((cy : Rat) + 1 / 2) / 2 ^ l ≤ bb.ymax)
+    (hz1 : bb.zmin ≤ ((cz : Rat) + 1 / 2) / 2 ^ l) (hz2 : ((cz : Rat) + 1 / 2) / 2 ^ l ≤ bb.zmax) :
+    o + 1 ∈ getCpuList t bb lmax levelmax ncpu 3 bk minCube := by
+  have hb : bitLengthOf bb lmax minCube ≤ levelmax + 1 := by omega
+  apply C04_preselect_sound t hd bb lmax levelmax ncpu bk minCube hm h0 htop hb _ _ _ o ho hlo hhi
+  by_cases hb0 : bitLengthOf bb lmax minCube = 0
+  · exact Or.inl hb0
+  · right
+    have hbpos : 0 < bitLengthOf bb lmax minCube := Nat.pos_of_ne_zero hb0
+    have hdm := dmax_le_cube bb lmax minCube hbpos
+    rw [octCoord_cube cx l _ _ hbl hl, octCoord_cube cy l _ _ hbl hl, octCoord_cube cz l _ _ hbl hl]
+    apply cubes_pos bb _ hbpos
+    · exact axis_in_cubes bb.xmin bb.xmax _ cx _ _ (by omega) hx0
+        (le_trans (le_maxR_left _ _) (le_maxR_left _ _)) hdm hx1 hx2
+    · exact axis_in_cubes bb.ymin bb.ymax _ cy _ _ (by omega) hy0
+        (le_trans (le_maxR_right _ _) (le_maxR_left _ _)) hdm hy1 hy2
+    · exact axis_in_cubes bb.zmin bb.zmax _ cz _ _ (by omega) hz0 (le_maxR_right _ _) hdm hz1 hz2
+
+theorem axisBox_fst_nonneg (S : Rat → Bool) (boxSize : Rat) (levelmax : Nat) : 0 ≤ (axisBox S boxSize levelmax).1 := by
+  unfold axisBox
+  simp only
+  split
+  · exact le_max_right _ _
+  · exact le_refl _
+
+/-- one axis of the end-to-end statement: the centre of an accepted cell lies in the axis' box -/
+theorem axisOf_sound (preds : List Loader.Pred) (name : String)
+    (hops : ∀ p ∈ preds, p.var = name → (p.op = "lt" ∨ p.op = "le" ∨ p.op = "gt" ∨ p.op = "ge"))
+    (boxSize : Rat) (hb : 0 < boxSize) (levelmax l cx : Nat) (hl : l ≤ levelmax) (hcx : cx < 2 ^ l)
+    (hacc : ∀ p ∈ preds, p.var = name → p.eval (boxSize * (((cx : Rat) + 1 / 2) / 2 ^ l)) = true)
+    (hsample : (preds.filter (·.var == name)) ≠ [] → ∃ i : Nat, i < 2 ^ (min levelmax 18) ∧
+      (preds.filter (·.var == name)).all (·.eval (boxSize / (2 * ((2 ^ (min levelmax 18) : Nat) : Rat)) * (2 * (i : Rat) + 1))) = true) :
+    0 ≤ ((axisOf preds name boxSize levelmax).getD (0, 1)).1 ∧
+    ((axisOf preds name boxSize levelmax).getD (0, 1)).1 ≤ ((cx : Rat) + 1 / 2) / 2 ^ l ∧
+    ((cx : Rat) + 1 / 2) / 2 ^ l ≤ ((axisOf preds name boxSize levelmax).getD (0, 1)).2 := by
+  have hpow : (0 : Rat) < 2 ^ l := by positivity
+  have hfrac0 : (0 : Rat) ≤ ((cx : Rat) + 1 / 2) / 2 ^ l := by positivity
+  have hfrac1 : ((cx : Rat) + 1 / 2) / 2 ^ l ≤ 1 := by
+    rw [div_le_one hpow]
+    have : (cx : Rat) + 1 ≤ 2 ^ l := by exact_mod_cast hcx
+    linarith
+  unfold axisOf
+  simp only
+  split
+  · simp only [Option.getD_none]
+    exact ⟨le_refl _, hfrac0, hfrac1⟩
+  · rename_i hne
+    simp only [Option.getD_some]
+    have hne' : preds.filter (·.var == name) ≠ [] := by simpa [List.isEmpty_iff] using hne
+    have hmem : ∀ p ∈ preds.filter (·.var == name), p ∈ preds ∧ p.var = name := by
+      intro p hp
+      simp only [List.mem_filter, beq_iff_eq] at hp
+      exact hp
+    have hsound := C04_axis_sound (preds.filter (·.var == name))
+      (fun p hp => hops p (hmem p hp).1 (hmem p hp).2) boxSize hb levelmax
+      (boxSize * (((cx : Rat) + 1 / 2) / 2 ^ l)) (mul_nonneg hb.le hfrac0)
+      (by nlinarith)
+      (by simp only [List.all_eq_true]; intro p hp; exact hacc p (hmem p hp).1 (hmem p hp).2)
+      (hsample hne')
+      (by
+        intro hlm
+        have hmin : min levelmax 18 = levelmax := Nat.min_eq_left hlm
+        refine ⟨(2 * cx + 1) * 2 ^ (levelmax - l), ?_⟩
+        rw [hmin]
+        have e : ((2 : Rat) ^ levelmax) = 2 ^ l * 2 ^ (levelmax - l) := by rw [← pow_add]; congr 1; omega
+        have hp2 : (0 : Rat) < 2 ^ (levelmax - l) := by positivity
+        push_cast
+        rw [e]
+        field_simp)
+    have hcancel : boxSize * (((cx : Rat) + 1 / 2) / 2 ^ l) / boxSize = ((cx : Rat) + 1 / 2) / 2 ^ l := by
+      field_simp
+    rw [hcancel] at hsound
+    exact ⟨axisBox_fst_nonneg _ _ _, hsound.1, hsound.2⟩
+
+/-- **C04 (end to end, 3-D Hilbert ordering)**: let the position functions be interval-type, each constrained axis accept
+    at least one sampled centre, the bound keys be non-decreasing from 0 to at least `8^(levelmax+1)`, and the search cubes be
+    limited to `levelmin = minCube > 0`. Then for every cell of level `l ≥ levelmin` whose centre the functions accept, the
+    cpu owning the cell's oct is in the list `hilbert_cpu_list` returns (when it returns one): the automatic pre-selection
+    never drops a file that holds a qualifying cell. -/
+theorem C04_selection_sound (t : HTable) (hd : ∀ s d, t.digit s d < 8) (preds : List Loader.Pred)
+    (hops : ∀ p ∈ preds, (p.var = "position_x" ∨ p.var = "position_y" ∨ p.var = "position_z") →
+      (p.op = "lt" ∨ p.op = "le" ∨ p.op = "gt" ∨ p.op = "ge"))
+    (boxSize : Rat) (hbs : 0 < boxSize) (levelmax lmax ncpu : Nat) (bk : List Nat) (minCube : Nat) (hmc : 0 < minCube)
+    (hm : ∀ i j, i ≤ j → j ≤ ncpu → bk.getD i 0 ≤ bk.getD j 0) (h0 : bk.getD 0 0 = 0)
+    (htop : 8 ^ (levelmax + 1) ≤ bk.getD ncpu 0)
+    (l cx cy cz o : Nat) (hlmin : minCube ≤ l) (hl : l ≤ levelmax)
+    (hcx : cx < 2 ^ l) (hcy : cy < 2 ^ l) (hcz : cz < 2 ^ l) (ho : o < ncpu)
+    (hlo : bk.getD o 0 ≤ key t (octCoord cx l (levelmax + 1)) (octCoord cy l (levelmax + 1)) (octCoord cz l (levelmax + 1)) (levelmax + 1))
+    (hhi : key t (octCoord cx l (levelmax + 1)) (octCoord cy l (levelmax + 1)) (octCoord cz l (levelmax + 1)) (levelmax + 1) < bk.getD (o + 1) 0)
+    (haccx : ∀ p ∈ preds, p.var = "position_x" → p.eval (boxSize * (((cx : Rat) + 1 / 2) / 2 ^ l)) = true)
+    (haccy : ∀ p ∈ preds, p.var = "position_y" → p.eval (boxSize * (((cy : Rat) + 1 / 2) / 2 ^ l)) = true)
+    (haccz : ∀ p ∈ preds, p.var = "position_z" → p.eval (boxSize * (((cz : Rat) + 1 / 2) / 2 ^ l)) = true)
+    (hsample : ∀ name, (preds.filter (·.var == name)) ≠ [] → ∃ i : Nat, i < 2 ^ (min levelmax 18) ∧
+      (preds.filter (·.var == name)).all (·.eval (boxSize / (2 * ((2 ^ (min levelmax 18) : Nat) : Rat)) * (2 * (i : Rat) + 1))) = true)
+    (L : List Nat)
+    (hL : hilbertCpuList t "hilbert" preds boxSize levelmax lmax ncpu 3 bk true minCube = some L) : o + 1 ∈ L := by
+  unfold hilbertCpuList at hL
+  simp only [bne_self_eq_false, Bool.false_eq_true, if_false, Bool.not_true] at hL
+  split at hL
+  · cases hL
+  · injection hL with hL
+    subst hL
+    have bx := axisOf_sound preds "position_x" (fun p hp hv => hops p hp (Or.inl hv)) boxSize hbs levelmax l cx hl hcx haccx
+      (hsample "position_x")
+    have by' := axisOf_sound preds "position_y" (fun p hp hv => hops p hp (Or.inr (Or.inl hv))) boxSize hbs levelmax l cy hl hcy haccy
+      (hsample "position_y")
+    have bz := axisOf_sound preds "position_z" (fun p hp hv => hops p hp (Or.inr (Or.inr hv))) boxSize hbs levelmax l cz hl hcz haccz
+      (hsample "position_z")
+    generalize hax : axisOf preds "position_x" boxSize levelmax = ax at *
+    generalize hay : axisOf preds "position_y" boxSize levelmax = ay at *
+    generalize haz : axisOf preds "position_z" boxSize levelmax = az at *
+    have hbl := bitLength_le_minCube
+      { xmin := (ax.getD (0, 1)).1, xmax := (ax.getD (0, 1)).2, ymin := (ay.getD (0, 1)).1, ymax := (ay.getD (0, 1)).2,
+        zmin := (az.getD (0, 1)).1, zmax := (az.getD (0, 1)).2 } lmax minCube hmc
+    exact C04_cell_sound t hd
+      { xmin := (ax.getD (0, 1)).1, xmax := (ax.getD (0, 1)).2, ymin := (ay.getD (0, 1)).1, ymax := (ay.getD (0, 1)).2,
+        zmin := (az.getD (0, 1)).1, zmax := (az.getD (0, 1)).2 }
+      lmax levelmax ncpu bk minCube hm h0 htop bx.1 by'.1 bz.1 l cx cy cz o (by omega)
+      (by omega) ho hlo hhi bx.2.1 bx.2.2 by'.2.1 by'.2.2 bz.2.1 bz.2.2
+
 end Osyris.C04
